@@ -114,7 +114,7 @@ func TestVerif_C03(t *testing.T) {
 	defer R.Finish()
 	base := vkBase("c03")
 	defer os.RemoveAll(base)
-	R.Rule = "absent keys: (a) every skipped slot of the generated epoch (432 000-slot range, sharded), (b) constructed colliders = absent slots / signatures / CIDs / addresses whose bucket and 24-bit in-bucket hash equal those of a stored key (slot pairs computed over the whole epoch with the index's hash domain, the others by brute force over hashed candidates; colliding addresses for both kinds of stored address: newest transaction verifiable, and newest transaction a v0 transaction with a table lookup archived without metadata), (c) slots of an epoch that is not loaded, (d) JSON numbers that are not the number of a slot with a block (a stored slot plus a fraction; an integer beyond 2^53); each through JSON-RPC and gRPC with one and with two epochs loaded; oracle = not-found / epoch-not-available / empty list / error, never an object of another key; non-trivial = constructed collider"
+	R.Rule = "absent keys: (a) every skipped slot of the generated epoch (432 000-slot range, sharded), (b) constructed colliders = absent slots / signatures / CIDs / addresses whose bucket and 24-bit in-bucket hash equal those of a stored key (slot pairs computed over the whole epoch with the index's hash domain, the others by brute force over hashed candidates; colliding addresses for both kinds of stored address: newest transaction verifiable, and newest transaction a v0 transaction with a table lookup archived without metadata), (c) slots of an epoch that is not loaded, (d) JSON numbers that are not the number of a slot with a block (a stored slot plus a fraction; an integer beyond 2^53; exponent notation whose leading digits are a stored slot); each through JSON-RPC and gRPC with one and with two epochs loaded; oracle = not-found / epoch-not-available / empty list / error, never an object of another key; non-trivial = constructed collider"
 	nPairs, nOther := 6, 3
 	if vkit.Thorough() {
 		nPairs, nOther = 24, 10
@@ -616,7 +616,9 @@ func TestVerif_C03(t *testing.T) {
 		}
 		// (d) JSON numbers that are not the number of a slot with a block: a stored slot plus a fraction, and an
 		// integer beyond 2^53 (which a float64 rounds to a neighbour): never answered with a block
-		for _, lit := range []string{fmt.Sprintf("%d.5", eA.Truth.Blocks[1].Slot), fmt.Sprintf("%d.25", eA.Truth.Blocks[2].Slot), fmt.Sprintf("%d.9", eA.Truth.Blocks[1].Slot-1), "9007199254740993"} {
+		for _, lit := range []string{fmt.Sprintf("%d.5", eA.Truth.Blocks[1].Slot), fmt.Sprintf("%d.25", eA.Truth.Blocks[2].Slot), fmt.Sprintf("%d.9", eA.Truth.Blocks[1].Slot-1), "9007199254740993",
+			// exponent notation: the digits before the exponent are those of a stored slot, the number is another slot
+			fmt.Sprintf("%de1", eA.Truth.Blocks[1].Slot), fmt.Sprintf("%dE2", eA.Truth.Blocks[2].Slot), fmt.Sprintf("%de+1", eA.Truth.Blocks[1].Slot), fmt.Sprintf("%d5e-1", eA.Truth.Blocks[1].Slot)} {
 			for _, method := range []string{"getBlock", "getBlockTime"} {
 				opts := ""
 				if method == "getBlock" {
